@@ -160,7 +160,7 @@ def known_match(v, findings):
     return None
 
 
-def validate(prog, rng, n):
+def validate(prog, rng, n, rep=None):
     cases = []
     for i in range(n):
         digs = rng.randint(1, 25)
@@ -170,6 +170,11 @@ def validate(prog, rng, n):
     mism = []
     S.DIGIT_BOUND[0] = 60
     for (nn, s, p, mode), nat in zip(cases, outs):
+        if rep is not None:
+            exp = H.dec_str(*py_spec_prec(nn, s, p, mode))
+            if nat != exp:
+                H.probe_violation(rep, PROP, 'native with_precision_round(%d@%d, p=%d, %s) = %s, exact %s' % (nn, s, p, mode, nat, exp), {'kind': 'with_precision_round', 'D': 0, 'p': p, 'mode': mode}, {'n': nn, 's0': s, 'y': 0}, nat)
+                continue
         m = E.Machine(prog, (), [], E.Stats(), loop_bound=3000)
         try:
             r = m.call('BigDecimal::with_precision_round', [Ref([C.dec(nn, s)], 0), p, mode_val(mode)], ['&BigDecimal', 'NonZero<u64>', 'rounding::RoundingMode'], 'BigDecimal')
@@ -226,7 +231,7 @@ def main(tier):
                        'num-bigint digit conversion contracts as in C06']
     rep.outside = ['more than D digits', 'precision overflow panic region (|scale| near i64 limits)']
     sys.stderr.write('[C07] %d tasks\n' % len(tasks))
-    rep.validated, rep.validation_mismatches = validate(prog, rng, 300 if tier == 'quick' else 3000)
+    rep.validated, rep.validation_mismatches = validate(prog, rng, 300 if tier == 'quick' else 3000, rep)
     results = H.run_parallel(tasks, worker, progress=200)
     rep.add(results)
     findings = H.load_known_findings(PROP)
